@@ -171,13 +171,23 @@ theorem step_tr {s s' : State} {o : Obs} (h : step? s o = some s') (i : Nat) :
           exact ⟨rfl, rfl, ⟨Nat.le_refl _, fun _ => rfl⟩, Or.inl rfl⟩
       · injection h with h; subst h
         exact ⟨rfl, rfl, ⟨Nat.le_refl _, fun _ => rfl⟩, Or.inl rfl⟩
+  | sa =>
+    simp only [step?] at h; split at h
+    · injection h with h; subst h; exact ⟨rfl, rfl, ⟨Nat.le_refl _, fun _ => rfl⟩, Or.inl rfl⟩
+    · simp at h
+  | sr =>
+    simp only [step?] at h; split at h
+    · injection h with h; subst h; exact ⟨rfl, rfl, ⟨Nat.le_refl _, fun _ => rfl⟩, Or.inl rfl⟩
+    · simp at h
+  | qb => simp only [step?] at h; injection h with h; subst h; exact ⟨rfl, rfl, ⟨Nat.le_refl _, fun _ => rfl⟩, Or.inl rfl⟩
+  | qi => simp only [step?] at h; injection h with h; subst h; exact ⟨rfl, rfl, ⟨Nat.le_refl _, fun _ => rfl⟩, Or.inl rfl⟩
 
 /-- What `read i` needs. -/
 theorem read_requires {s s' : State} {i : Nat} (h : step? s (.read i) = some s') :
     i < s.n ∧ s.started = true ∧ (s.trs i).reg = true ∧ (s.trs i).kind ≠ .none ∧
     s.inflight.length < parallelReads ∧
     ((∃ b, (s.trs i).phase = .want b) ∨ (∃ d, (s.trs i).phase = .sleeping d ∧ d ≤ s.now)) ∧
-    s'.inflight.length = s.inflight.length + 1 := by
+    s'.inflight.length = s.inflight.length + 1 ∧ s.inflight.length < s.held ∧ s'.held = s.held := by
   simp only [step?] at h
   split at h
   · rename_i hc
@@ -186,45 +196,59 @@ theorem read_requires {s s' : State} {i : Nat} (h : step? s (.read i) = some s')
     split at h
     · rename_i b hph
       injection h with h; subst h
-      exact ⟨hc.1, hact.1.1, hact.1.2, hact.2, hc.2.2, Or.inl ⟨b, hph⟩, by simp⟩
+      exact ⟨hc.1, hact.1.1, hact.1.2, hact.2, hc.2.2.1, Or.inl ⟨b, hph⟩, by simp, hc.2.2.2.1, rfl⟩
     · rename_i d hph
       split at h
       · rename_i hd
         injection h with h; subst h
-        exact ⟨hc.1, hact.1.1, hact.1.2, hact.2, hc.2.2, Or.inr ⟨d, hph, hd⟩, by simp⟩
+        exact ⟨hc.1, hact.1.1, hact.1.2, hact.2, hc.2.2.1, Or.inr ⟨d, hph, hd⟩, by simp, hc.2.2.2.1, rfl⟩
       · simp at h
     · simp at h
   · simp at h
 
-/-- the number of reads in flight never exceeds `parallelReads` -/
-theorem inflight_step {s s' : State} {o : Obs} (h : step? s o = some s')
-    (hi : s.inflight.length ≤ parallelReads) : s'.inflight.length ≤ parallelReads := by
+/-- slot invariant: every read in flight holds a slot, and there are only `parallelReads` slots -/
+def Slots (s : State) : Prop := s.inflight.length ≤ s.held ∧ s.held ≤ parallelReads
+
+theorem slots_step {s s' : State} {o : Obs} (h : step? s o = some s') (hi : Slots s) : Slots s' := by
+  obtain ⟨h1, h2⟩ := hi
   cases o with
-  | read i => have := read_requires h; omega
+  | read i =>
+    have hr := read_requires h
+    exact ⟨by rw [hr.2.2.2.2.2.2.1, hr.2.2.2.2.2.2.2.2]; exact hr.2.2.2.2.2.2.2.1, by rw [hr.2.2.2.2.2.2.2.2]; exact h2⟩
   | done i =>
     simp only [step?] at h
     split at h
     · simp at h
     · have hle : ∀ e, (s.inflight.erase e).length ≤ s.inflight.length := fun e => List.length_erase_le
       split at h
-      · split at h <;> injection h with h <;> subst h <;> simp <;> exact Nat.le_trans (hle _) hi
-      · injection h with h; subst h; exact Nat.le_trans (hle _) hi
+      · split at h <;> injection h with h <;> subst h <;> exact ⟨Nat.le_trans (hle _) h1, h2⟩
+      · injection h with h; subst h; exact ⟨Nat.le_trans (hle _) h1, h2⟩
   | begin =>
     simp only [step?] at h; split at h
     · simp at h
-    · injection h with h; subst h; split <;> simp [startAll] <;> exact hi
-  | stop => simp only [step?] at h; injection h with h; subst h; simp [stopAll]; exact hi
+    · injection h with h; subst h; split <;> simp [startAll, Slots] <;> exact ⟨h1, h2⟩
+  | stop => simp only [step?] at h; injection h with h; subst h; simp [stopAll, Slots]; exact ⟨h1, h2⟩
   | conn c =>
     simp only [step?] at h
     repeat' split at h
-    all_goals (first | (simp at h; done) | (injection h with h; subst h; simp [startAll, stopAll]; exact hi) | (injection h with h; subst h; exact hi))
-  | reg k => simp only [step?] at h; split at h <;> (first | (simp at h; done) | (injection h with h; subst h; exact hi))
-  | unreg k => simp only [step?] at h; split at h <;> (first | (simp at h; done) | (injection h with h; subst h; simpa using hi))
+    all_goals (first | (simp at h; done) | (injection h with h; subst h; simp [startAll, stopAll, Slots]; exact ⟨h1, h2⟩) | (injection h with h; subst h; exact ⟨h1, h2⟩))
+  | reg k => simp only [step?] at h; split at h <;> (first | (simp at h; done) | (injection h with h; subst h; exact ⟨h1, h2⟩))
+  | unreg k => simp only [step?] at h; split at h <;> (first | (simp at h; done) | (injection h with h; subst h; simp [Slots]; exact ⟨h1, h2⟩))
   | upd k st =>
     simp only [step?] at h
     repeat' split at h
-    all_goals (first | (simp at h; done) | (injection h with h; subst h; simpa using hi))
-  | adv t => simp only [step?] at h; split at h <;> (first | (simp at h; done) | (injection h with h; subst h; exact hi))
+    all_goals (first | (simp at h; done) | (injection h with h; subst h; simp [Slots]; exact ⟨h1, h2⟩))
+  | adv t => simp only [step?] at h; split at h <;> (first | (simp at h; done) | (injection h with h; subst h; exact ⟨h1, h2⟩))
+  | sa =>
+    simp only [step?] at h; split at h
+    · rename_i hc; injection h with h; subst h; exact ⟨Nat.le_succ_of_le h1, hc⟩
+    · simp at h
+  | sr =>
+    simp only [step?] at h; split at h
+    · rename_i hc; injection h with h; subst h; exact ⟨by show s.inflight.length ≤ s.held - 1; omega, by show s.held - 1 ≤ parallelReads; omega⟩
+    · simp at h
+  | qb => simp only [step?] at h; injection h with h; subst h; exact ⟨h1, h2⟩
+  | qi => simp only [step?] at h; injection h with h; subst h; exact ⟨h1, h2⟩
 
 /-- while the updater is not started every tracker is off; unregistered / non-tracking values are off -/
 structure Inv (s : State) : Prop where
@@ -403,6 +427,16 @@ theorem inv_step (s : State) (o : Obs) (s' : State) (hi : Inv s) (h : step? s o 
             · rename_i hik; simp only [hik, ↓reduceIte] at hk; exact h3 i hk
         · injection h with h; subst h; exact ⟨h1, h2, h3⟩
       · injection h with h; subst h; exact ⟨h1, h2, h3⟩
+  | sa =>
+    simp only [step?] at h; split at h
+    · injection h with h; subst h; exact ⟨h1, h2, h3⟩
+    · simp at h
+  | sr =>
+    simp only [step?] at h; split at h
+    · injection h with h; subst h; exact ⟨h1, h2, h3⟩
+    · simp at h
+  | qb => simp only [step?] at h; injection h with h; subst h; exact ⟨h1, h2, h3⟩
+  | qi => simp only [step?] at h; injection h with h; subst h; exact ⟨h1, h2, h3⟩
 
 /-- How one accepted step changes `started`, the registration of value `i` and `n`. -/
 theorem flags_step {s s' : State} {o : Obs} (h : step? s o = some s') (i : Nat) :
@@ -498,6 +532,16 @@ theorem flags_step {s s' : State} {o : Obs} (h : step? s o = some s') (i : Nat) 
           exact ⟨Or.inl, Or.inl, Or.inl, Or.inl, rfl⟩
       · injection h with h; subst h
         exact ⟨Or.inl, Or.inl, Or.inl, Or.inl, rfl⟩
+  | sa =>
+    simp only [step?] at h; split at h
+    · injection h with h; subst h; exact ⟨Or.inl, Or.inl, Or.inl, Or.inl, rfl⟩
+    · simp at h
+  | sr =>
+    simp only [step?] at h; split at h
+    · injection h with h; subst h; exact ⟨Or.inl, Or.inl, Or.inl, Or.inl, rfl⟩
+    · simp at h
+  | qb => simp only [step?] at h; injection h with h; subst h; exact ⟨Or.inl, Or.inl, Or.inl, Or.inl, rfl⟩
+  | qi => simp only [step?] at h; injection h with h; subst h; exact ⟨Or.inl, Or.inl, Or.inl, Or.inl, rfl⟩
 
 theorem read_phase {s s' : State} {i : Nat} (h : step? s (.read i) = some s') :
     ∃ b, (s'.trs i).phase = .reading b := by
